@@ -439,6 +439,9 @@ func convertEvalPeersToConnlistPeer(peers []eval.Peer) []Peer {
 func (ca *ConnlistAnalyzer) getConnectionsList(pe *eval.PolicyEngine, ia *ingressanalyzer.IngressAnalyzer) ([]Peer2PeerConnection,
 	[]Peer, error) {
 	connsRes := make([]Peer2PeerConnection, 0)
+	// what an earlier analysis of this analyzer found (its exposure result, its focus peers) says nothing about this input
+	ca.exposureResult = nil
+	ca.peersList = nil
 	if !pe.HasPodPeers() {
 		return connsRes, []Peer{}, nil
 	}
